@@ -251,9 +251,9 @@ func runC01(c *Ctx) {
 		c.Anchor("O1.3", "core/schedule.(*doAtSchedule).Next")
 	} else {
 		nFin, nTok := 0, 0
-		for _, b := range nx.Blocks {
-			r, ok := b.Instrs[len(b.Instrs)-1].(*ssa.Return)
-			if !ok || len(r.Results) != 2 {
+		// (where Next ends with `return s.tokenTime(i)`, the returns of that helper)
+		for _, r := range DelegatedReturns(nx) {
+			if len(r.Results) != 2 {
 				continue
 			}
 			okv, isC := ConstCond(r.Results[1])
